@@ -41,7 +41,7 @@ KINDS = ['fold_add', 'fold_max', 'fold_cat', 'fold_iadd_list', 'fold_probe_init'
          'sum_probe_init', 'flatten', 'flatten_lazy', 'flatten_tuple', 'flatten_str', 'flatten_probe_init',
          'merge', 'merge_odict', 'merge_probe_init', 'flatten_fn', 'merge_fn', 'flatten_levels2',
          'flatten_levels2_int', 'flatten_levels2_tuple', 'flatten_levels0', 'flatten_levels3',
-         'merge_factory_odict']
+         'merge_factory_odict', 'merge_op_absorb', 'merge_op_first_wins']
 
 ITEM_KIND = {
     'fold_add': 'int', 'fold_max': 'int', 'fold_cat': 'any', 'fold_iadd_list': 'list', 'fold_probe_init': 'list',
@@ -49,7 +49,7 @@ ITEM_KIND = {
     'flatten_tuple': 'tuple', 'flatten_str': 'str', 'flatten_probe_init': 'list', 'merge': 'dict',
     'merge_odict': 'dict', 'merge_probe_init': 'dict', 'flatten_fn': 'list', 'merge_fn': 'dict',
     'flatten_levels2': 'list2', 'flatten_levels2_int': 'intlist', 'flatten_levels2_tuple': 'tuple2',
-    'flatten_levels0': 'list', 'flatten_levels3': 'list3', 'merge_factory_odict': 'dict',
+    'flatten_levels0': 'list', 'flatten_levels3': 'list3', 'merge_factory_odict': 'dict', 'merge_op_absorb': 'dict', 'merge_op_first_wins': 'dict',
 }
 
 
@@ -74,6 +74,8 @@ def spec_recipe(kind, sub):
         'merge_odict': ['Merge', s, ['fn', 'OrderedDict']],
         'merge_probe_init': ['Merge', s, P('dict')],
         'merge_factory_odict': ['Merge', s, P('OrderedDict')],     # init is a factory, not a type
+        'merge_op_absorb': ['Merge', s, ['fn', 'dict'], ['fn', 'absorb']],
+        'merge_op_first_wins': ['Merge', s, ['fn', 'dict'], ['fn', 'first_wins']],
     }.get(kind)
 
 
@@ -189,6 +191,17 @@ def reference(kind, items):
     if kind == 'flatten_str':
         return ''.join(itertools.chain.from_iterable(items))
     if kind in ('merge', 'merge_probe_init', 'merge_fn'):
+        d = {}
+        for x in items:
+            d.update(x)
+        return d
+    if kind == 'merge_op_first_wins':
+        d = {}
+        for x in items:
+            for k, v in x.items():
+                d.setdefault(k, v)
+        return d
+    if kind == 'merge_op_absorb':
         d = {}
         for x in items:
             d.update(x)
